@@ -1,4 +1,4 @@
-SPECIFICATION Spec
+SPECIFICATION SimSpec
 CONSTANTS
   Geoms <- GeomsSim
   MaxDepth = 3
@@ -9,6 +9,7 @@ CONSTANTS
   MaxArity = 3
   Lanes = FALSE
   Record = TRUE
+  Sim = TRUE
   Bug = "none"
 INVARIANT RoutesAgree
 INVARIANT NamingKept
